@@ -430,6 +430,7 @@ class POP3CommandHandler:
 
         msg_bytes = msg_as_bytes(msg)
         size = len(msg_bytes)
+        self.msg_sizes.setdefault(n, size)
         msg_bytes = dot_stuff(msg_bytes)
         await self.client.push(
             f"+OK {size} octets\r\n".encode("latin-1") + msg_bytes + b".\r\n"
